@@ -727,7 +727,7 @@ fn main() {
         }
     }
 
-    run.drive_par("direct", run.scale(1_500, 30_000), threads, strategy(false), |c| judge_direct(&run, now, c));
-    run.drive_par("e2e", run.scale(200, 3_000), threads, strategy(true), |c| judge_e2e(&run, &src, now, c));
+    run.drive_par("direct", run.scale(1_500, 20_000), threads, strategy(false), |c| judge_direct(&run, now, c));
+    run.drive_par("e2e", run.scale(200, 2_000), threads, strategy(true), |c| judge_e2e(&run, &src, now, c));
     run.finish();
 }
